@@ -2489,7 +2489,7 @@ void vm_execute_string_deref(vm * machine, bytecode * code)
     }
 
     char * str = gc_get_string(machine->collector, str_ptr);
-    if (index >= (int)strlen(str))
+    if (index < 0 || index >= (int)strlen(str))
     {
         machine->running = VM_EXCEPTION;
         machine->exception = EXCEPT_NO_INDEX_OOB;
